@@ -44,6 +44,24 @@ pub struct Cross {
     pub new_target: TargetM,
 }
 
+#[derive(Clone, Copy, Debug, Serialize, Deserialize, PartialEq, Eq)]
+pub enum UpdKind {
+    Replace,
+    Remove,
+    ReplaceThenRemove,
+    RemoveThenReAdd,
+}
+
+/// A later editing session of the owner on the written repository (load -> from_repo -> edit an
+/// existing role -> sign -> write), applied to targets that already exist in that role.
+#[derive(Clone, Debug, Serialize, Deserialize)]
+pub struct Update {
+    /// None = the top-level targets role, Some(i) = depth-1 role i
+    pub role: Option<usize>,
+    /// (index into that role's targets, what happens to it)
+    pub ops: Vec<(usize, UpdKind)>,
+}
+
 #[derive(Clone, Debug, Serialize, Deserialize)]
 pub struct Sc {
     pub world: u64,
@@ -54,6 +72,8 @@ pub struct Sc {
     pub link: bool,
     pub sign_with: SignWith,
     pub cross: Option<Cross>,
+    #[serde(default)]
+    pub update: Option<Update>,
 }
 
 pub struct C10;
@@ -119,7 +139,7 @@ impl Check for C10 {
         vec!["inadequate_key_set", "incoming_under_signed", "incoming_duplicated_signature", "incoming_wrong_keys", "incoming_older"]
     }
     fn required_probes(&self, _t: Tier) -> Vec<&'static str> {
-        vec!["written_repository_loaded_and_matches_model", "all_targets_read_back", "delegated_role_larger_than_targets_json", "genuine_incoming_incorporated", "hostile_incoming_refused", "inadequate_keys_refused"]
+        vec!["written_repository_loaded_and_matches_model", "owner_update_session_matches_model", "all_targets_read_back", "delegated_role_larger_than_targets_json", "genuine_incoming_incorporated", "hostile_incoming_refused", "inadequate_keys_refused"]
     }
     fn generate(&self, seed: u64, _tier: Tier) -> Sc {
         let mut r = Rng::new(seed);
@@ -153,9 +173,23 @@ impl Check for C10 {
         } else {
             None
         };
+        let update = if r.chance(1, 2) {
+            let role = if top.children.is_empty() || r.chance(1, 2) { None } else { Some(r.usize_below(top.children.len())) };
+            let n = role.map_or(top.targets.len(), |i| top.children[i].targets.len());
+            let mut ops = Vec::new();
+            for i in 0..n {
+                if r.chance(2, 3) {
+                    ops.push((i, *r.pick(&[UpdKind::Replace, UpdKind::Remove, UpdKind::ReplaceThenRemove, UpdKind::RemoveThenReAdd])));
+                }
+            }
+            Some(Update { role, ops })
+        } else {
+            None
+        };
         Sc {
             world: r.below(1_000_003),
             consistent: r.chance(1, 2),
+            update,
             top,
             snap_v: 1 + r.below(9),
             ts_v: 1 + r.below(9),
@@ -169,10 +203,21 @@ impl Check for C10 {
         if sc.cross.is_some() {
             v.push(Sc { cross: None, ..sc.clone() });
         }
+        if let Some(u) = &sc.update {
+            v.push(Sc { update: None, ..sc.clone() });
+            for i in 0..u.ops.len() {
+                let mut u2 = u.clone();
+                u2.ops.remove(i);
+                v.push(Sc { update: Some(u2), ..sc.clone() });
+            }
+        }
         if sc.consistent {
             v.push(Sc { consistent: false, ..sc.clone() });
         }
-        // drop subtrees / targets
+        // drop subtrees / targets (indices of a pending update session would dangle)
+        if sc.update.is_some() {
+            return v;
+        }
         for i in 0..sc.top.children.len() {
             if sc.cross.as_ref().is_some_and(|c| c.role == i) {
                 continue;
@@ -326,6 +371,114 @@ impl Check for C10 {
             o.probe("all_targets_read_back");
         }
         o.nontrivial = all_roles.len() > 1;
+
+        // ================= phase 2b: a later editing session of the owner =================
+        if let Some(u) = &sc.update {
+            let role_model: Option<&RoleM> = match u.role {
+                None => Some(&sc.top),
+                Some(i) => sc.top.children.get(i),
+            };
+            let Some(rm) = role_model else {
+                o.harness("update refers to a missing role");
+                world::set_clock(None);
+                return o;
+            };
+            let meta3 = dir.join("metadata3");
+            let t5 = dir_transport(meta_dir.clone(), targets_dir.clone(), None);
+            let shipped5 = shipped.clone();
+            let newc = |t: &TargetM| TargetM { seed: t.seed ^ 0xabcdef, size: t.size + 1, ..t.clone() };
+            let mut model = sc.top.clone();
+            {
+                let m = match u.role {
+                    None => &mut model,
+                    Some(i) => &mut model.children[i],
+                };
+                for (ti, kind) in &u.ops {
+                    let Some(t) = rm.targets.get(*ti) else { continue };
+                    match kind {
+                        UpdKind::Replace | UpdKind::RemoveThenReAdd => {
+                            if let Some(x) = m.targets.iter_mut().find(|x| x.name == t.name) {
+                                *x = newc(t);
+                            }
+                        }
+                        UpdKind::Remove | UpdKind::ReplaceThenRemove => m.targets.retain(|x| x.name != t.name),
+                    }
+                }
+                m.version += 1;
+            }
+            if u.role.is_some() {
+                // the top-level role is re-signed too (new version) before the delegated one is edited
+                model.version += 1;
+            }
+            let session: Result<(), String> = block_on(async {
+                let repo_u = world::load(&shipped5, t5, None, world::LoadOpts::default()).await.map_err(|e| format!("reload: {}", variant(&e)))?;
+                let mut ed = RepositoryEditor::from_repo(&root_path, repo_u).await.map_err(|e| format!("from_repo: {}", variant(&e)))?;
+                if u.role.is_some() {
+                    ed.targets_version(nz(sc.top.version + 1)).map_err(|e| variant(&e))?.targets_expires(dt(T0 + sc.top.expires_days * DAY)).map_err(|e| variant(&e))?;
+                    ed.sign_targets_editor(&sc.top.sources(w)).await.map_err(|e| format!("sign top: {}", variant(&e)))?;
+                    ed.change_delegated_targets(&rm.name).map_err(|e| format!("change_delegated_targets: {}", variant(&e)))?;
+                }
+                for (ti, kind) in &u.ops {
+                    let Some(t) = rm.targets.get(*ti) else { continue };
+                    let tn = TargetName::new(t.name.clone()).map_err(|e| format!("{e}"))?;
+                    let add = |ed: &mut RepositoryEditor| ed.add_target(t.name.as_str(), newc(t).to_target()).map(|_| ()).map_err(|e| format!("add_target: {}", variant(&e)));
+                    match kind {
+                        UpdKind::Replace => add(&mut ed)?,
+                        UpdKind::Remove => {
+                            ed.remove_target(&tn).map_err(|e| variant(&e))?;
+                        }
+                        UpdKind::ReplaceThenRemove => {
+                            add(&mut ed)?;
+                            ed.remove_target(&tn).map_err(|e| variant(&e))?;
+                        }
+                        UpdKind::RemoveThenReAdd => {
+                            ed.remove_target(&tn).map_err(|e| variant(&e))?;
+                            add(&mut ed)?;
+                        }
+                    }
+                }
+                ed.targets_version(nz(rm.version + 1)).map_err(|e| variant(&e))?.targets_expires(dt(T0 + rm.expires_days * DAY)).map_err(|e| variant(&e))?;
+                if u.role.is_some() {
+                    ed.sign_targets_editor(&rm.sources(w)).await.map_err(|e| format!("sign role: {}", variant(&e)))?;
+                }
+                ed.snapshot_version(nz(sc.snap_v + 1)).snapshot_expires(dt(T0 + 30 * DAY)).timestamp_version(nz(sc.ts_v + 1)).timestamp_expires(dt(T0 + 2 * DAY));
+                let signed = ed.sign(&top_sources(sc, SignWith::AllKeys)).await.map_err(|e| format!("sign: {}", variant(&e)))?;
+                signed.write(&meta3).await.map_err(|e| format!("write: {}", variant(&e)))?;
+                Ok(())
+            });
+            drain_blocking();
+            o.ev(format!("update session role={:?} ops={:?} -> {session:?}", u.role, u.ops));
+            match session {
+                Err(e) => o.violate(format!("owner-update-session-refused:{}", e.split(':').next().unwrap_or("")), e),
+                Ok(()) => {
+                    // publish the replaced contents the way the client will ask for them
+                    for (ti, kind) in &u.ops {
+                        if let (Some(t), UpdKind::Replace | UpdKind::RemoveThenReAdd) = (rm.targets.get(*ti), kind) {
+                            let c = newc(t).content();
+                            let p = targets_dir.join(world::target_file_name(sc.consistent, &t.name, &c));
+                            if let Some(parent) = p.parent() {
+                                let _ = std::fs::create_dir_all(parent);
+                            }
+                            let _ = std::fs::remove_file(&p);
+                            let _ = std::fs::write(&p, c);
+                        }
+                    }
+                    let t6 = dir_transport(meta3.clone(), targets_dir.clone(), None);
+                    let shipped6 = shipped.clone();
+                    match block_on(async move { world::load(&shipped6, t6, None, world::LoadOpts::default()).await }) {
+                        Err(e) => o.violate("updated-repository-does-not-load", variant(&e)),
+                        Ok(r3) => {
+                            let mism = compare(&r3, w, &model, sc.snap_v + 1, sc.ts_v + 1);
+                            if let Some(m) = mism.first() {
+                                o.violate("update-session-result-differs-from-model", format!("{} mismatch(es), first: {m}", mism.len()));
+                            } else {
+                                o.probe("owner_update_session_matches_model");
+                            }
+                        }
+                    }
+                }
+            }
+        }
 
         // ================= phase 3: cross-party flow =================
         if let Some(cx) = &sc.cross {
